@@ -304,3 +304,86 @@ def switch_on_variant(body, bb):
     for v, x in t["targets"]:
         m[names.get(v, str(v))] = x
     return rv["pl"], rv.get("adt"), m, t["otherwise"], [v["name"] for v in rv.get("variants", [])]
+
+
+# -- await points -----------------------------------------------------------------------------
+
+class Await:
+    """one `.await`: the IntoFuture::into_future call, the Future::poll call in the desugared loop,
+    the yield block, and the call that produced the awaited future (if any)"""
+
+    def __init__(self, body, into, poll, yield_bb, source):
+        self.body, self.into, self.poll, self.yield_bb, self.source = body, into, poll, yield_bb, source
+
+    @property
+    def span(self):
+        return (self.source or self.into).span
+
+    @property
+    def fut_ty(self):
+        return self.into.arg_tys[0] if self.into.arg_tys else ""
+
+    def source_name(self):
+        return strip_generics(self.source.callee) if self.source is not None else "<" + self.fut_ty + ">"
+
+    def ready_block(self):
+        """block where execution continues once the awaited future is Ready"""
+        v = switch_after_call(self.body, self.poll)
+        if v:
+            return v.get("Ready")
+        return None
+
+
+def switch_after_call(body, call):
+    bb = call.target
+    for _ in range(4):
+        if bb is None:
+            return None
+        t = body.term(bb)
+        if t["k"] == "switch":
+            v = switch_on_variant(body, bb)
+            if v:
+                return v[2]
+            return None
+        if t["k"] in ("goto", "drop"):
+            bb = t["target"]
+        else:
+            return None
+    return None
+
+
+def awaits(body):
+    out = []
+    polls = [c for c in body.calls() if strip_generics(c.callee) == "core::future::future::Future::poll" and "desugar:Await" in " ".join(c.macros + [""]) or
+             (strip_generics(c.callee) == "core::future::future::Future::poll" and any("Await" in m for m in c.macros))]
+    intos = [c for c in body.calls() if strip_generics(c.callee) == "core::future::into_future::IntoFuture::into_future"]
+    for i in intos:
+        if i.dest is None:
+            continue
+        d = derived(body, {i.dest["l"]}, calls="adapters")
+        ps = [p for p in body.calls() if strip_generics(p.callee) == "core::future::future::Future::poll" and p.args and op_local(p.args[0]) in d]
+        if not ps:
+            continue
+        p = ps[0]
+        # yield block: first yield reachable from the poll's Pending edge
+        m = switch_after_call(body, p) or {}
+        ybb = None
+        pend = m.get("Pending")
+        if pend is not None:
+            seen = set()
+            st = [pend]
+            while st:
+                b = st.pop()
+                if b in seen:
+                    continue
+                seen.add(b)
+                if body.term(b)["k"] == "yield":
+                    ybb = b
+                    break
+                if b == p.bb:
+                    continue
+                st.extend(body.succ_map()[b])
+        r = root(body, i.args[0], through_calls=())
+        src = r[1] if r[0] == "call" else None
+        out.append(Await(body, i, p, ybb, src))
+    return out
